@@ -33,13 +33,24 @@ def rename(text, old, new):
 
 
 def break_refs(text, rng):
-    """make some references dangle so that a load with ignore=[DaeError] records errors"""
+    """make some references dangle (or pad them with blanks) so that a load with ignore=[DaeError] records errors"""
     spots = [m for m in re.finditer(r'(url|target)="#([^"]+)"', text)]
     if not spots:
         return text
     for m in sorted(rng.sample(spots, min(len(spots), rng.choice([1, 1, 2]))), key=lambda m: -m.start()):
-        text = text[:m.start(2)] + 'nosuch' + text[m.end(2):]
+        if rng.random() < 0.3:
+            text = text[:m.start(2) - 1] + ' #' + m.group(2) + ' ' + text[m.end(2):]      # url=" #id "
+        else:
+            text = text[:m.start(2)] + 'nosuch' + text[m.end(2):]
     return text
+
+
+def adversarial_foreign(rng):
+    """a foreign namespace URI chosen against the root URIs the document will be loaded under: extensions and
+    prefixes of the official ones, same length, characters that mean something to format / regex code"""
+    return rng.choice([NS15 + '/vendor/physics', NS141 + '/ext', NS15[:-3], NS141[:-1], NS141 + ' ', 'urn:x-verif:ns',
+                       NS15.replace('2008', '2009'), NS141.upper(), 'http://www.collada.org/', '%s', 'a',
+                       xmldocs.FOREIGN_NS])
 
 
 def variants(text, rng):
@@ -49,7 +60,12 @@ def variants(text, rng):
     # a case variant and an extension of the official ones
     rnd = rng.choice(['urn:x-verif:ns%d', 'x%d', 'http://example.org/schemas/collada/%d',
                       'http://www.collada.org/2005/11/COLLADASchema/%d', 'HTTP://WWW.COLLADA.ORG/2008/03/COLLADASCHEMA?v=%d',
-                      'http://example.org/a+b(c)*[d].$^/%d', 'urn:%d:{not-a-brace-pair', 'tag:verif,%d:%%s/%%(x)s']) % k
+                      'http://example.org/a+b(c)*[d].$^/%d', 'tag:verif,%d:%%s/%%(x)s',
+                      'a%d', 'ns with spaces %d', '%%41%%7B%d%%', 'http://www.collada.org/2008/03/COLLADASchem%d']) % k
+    # (braces are not URI characters and pycollada's tag splitting relies on that: '{x' or 'x}y' as a namespace
+    # name is outside the property's "any namespace URI")
+    if rng.random() < 0.05:
+        rnd = rng.choice(['a', '%', 'x y'])
     others = [u for u in (NS141, NS15) if u != ns] + [rnd]
     if ns == NS141:
         others = [NS15, rnd]
@@ -95,12 +111,17 @@ def make_docs(ctx, n, shipped=True):
     docs = []
     for i in range(n):
         x, d = xmldocs.gen_document(rng, rng.choice([0, 1, 1, 2]), controllers=(True if i % 4 else None),
-                                    animations=(True if i % 3 else None), foreign=(True if i % 2 else None))
+                                    animations=(True if i % 3 else None), foreign=(True if i % 2 else None),
+                                    foreign_ns=(adversarial_foreign(rng) if i % 2 else None))
         docs.append({'xml': x.decode('utf-8'), 'desc': d, 'ignore': False})
     nb = max(1, n // 3)
     for i in range(nb):
-        x, d = xmldocs.gen_document(rng, rng.choice([1, 1, 2]), controllers=True, animations=True)
-        docs.append({'xml': break_refs(x.decode('utf-8'), rng), 'ignore': True, 'broken': True})
+        # documents on which the loader records errors: dangling / padded references, vendor elements directly
+        # inside <node> (in a namespace chosen against the root URIs)
+        x, d = xmldocs.gen_document(rng, rng.choice([1, 1, 2]), controllers=True, animations=True, foreign=True,
+                                    foreign_ns=adversarial_foreign(rng), foreign_in_nodes=(i % 2 == 0))
+        text = x.decode('utf-8')
+        docs.append({'xml': break_refs(text, rng) if i % 3 else text, 'ignore': True, 'broken': True})
     if shipped:
         data = os.path.join(core.REPO, 'collada', 'tests', 'data')
         for fn in sorted(os.listdir(data)):
